@@ -34,7 +34,7 @@ def main():
         if a.no_proof or os.environ.get("VERIF_DEV_NO_PROOF"):
             proof = {"ok": True, "obligations": 1, "discharged": 1, "theorems": [], "axioms": {}}
         else:
-            proof = build.proof_stage(prop.LEAN_MODULES)
+            proof = build.proof_stage(prop.LEAN_MODULES, recheck=(a.tier == "thorough" and not a.replay))
         print(f"[{a.prop}] proof stage: ok={proof['ok']} obligations={proof.get('obligations')} "
               f"discharged={proof.get('discharged')} wall={proof.get('wall', 0):.1f}s", flush=True)
         if not proof["ok"]:
